@@ -283,7 +283,7 @@ def run(prog: Program, ctx: Ctx) -> None:  # noqa: PLR0912,PLR0915
         base = klass("Base", "core", [("x", {}), ("seed", {"initvar": True}), ("scale", {"initvar": True, "value": "2"})], [])
         derived = klass("Derived", "core" if n_pkgs == 1 else "plugin", [("y", {"value": "0"})], [base])
         pkgs = [package("core", [base, derived])] if n_pkgs == 1 else [package("core", [base]), package("plugin", [derived])]
-        ext = Obj(prog.cls("_griffe.extensions.dataclasses.DataclassesExtension"), {}, label="extension")
+        ext = it._construct(prog.cls("_griffe.extensions.dataclasses.DataclassesExtension"), [], {})  # whatever state its constructor sets up
         captured.clear()
         try:
             it.steps = 0
@@ -296,6 +296,43 @@ def run(prog: Program, ctx: Ctx) -> None:  # noqa: PLR0912,PLR0915
         ctx.ob("R2", f"sequence|{n_pkgs} package(s)|InitVar base then derived", got2 == want2,
                f"Base(x, seed: InitVar, scale: InitVar = 2) processed, then Derived(Base)(y = 0) in {'the same' if n_pkgs == 1 else 'a later'} package: "
                f"synthesised parameter lists {got2}; CPython {want2}", where(opl))
+    # only the standard library's decorator makes a dataclass: a callable of the same name from somewhere else (a project's own `dataclasses.py`, a
+    # registry decorator) leaves the class without a synthesised constructor and contributes no fields to its subclasses
+    for dpath, is_dc in (("dataclasses.dataclass", True), ("pkg.dataclasses.dataclass", False), ("registry.dataclass", False), ("dataclasses.dataclass_transform", False)):
+        base_o = Obj(cls_cls, {"name": "P", "path": "m.P", "members": {"a": attribute("a", {})}, "decorators": [Obj(dec_cls, {"value": expr_name(dpath)})], "labels": set(),
+                               "set_member": Native(lambda n_, v_: None)}, label="P")
+        sub_o = Obj(cls_cls, {"name": "D", "path": "m.D", "members": {"b": attribute("b", {})}, "decorators": [decorator(None)], "labels": set(),
+                              "set_member": Native(lambda n_, v_: None)}, label="D")
+        it.stubs[f"{M}.Class.mro"] = lambda _i, self_, base_o=base_o, sub_o=sub_o: [base_o] if self_ is sub_o else []
+        captured.clear()
+        it.steps = 0
+        try:
+            it.call(sdi, sub_o)
+            got6: object = [p.attrs["name"] for p in it._iterate(captured[0])][1:] if captured else "no __init__ synthesised"
+        except Raised as r:
+            got6 = f"raises {r.exc}"
+        want6 = ["a", "b"] if is_dc else ["b"]
+        ctx.ob("R2", f"decorator-identity|base decorated with {dpath}", got6 == want6,
+               f"@{dpath} class P: a: int / @dataclass class D(P): b: int -> D's synthesised parameters {got6}; expected {want6}", where(sdi))
+        is_deco = it.call(prog.function(f"{X}._dataclass_decorator"), base_o.attrs["decorators"])
+        ctx.ob("R2", f"decorator-identity|{dpath} recognised", (is_deco is not None) == is_dc, f"_dataclass_decorator([@{dpath}]) -> {'a dataclass decorator' if is_deco is not None else 'None'}; "
+               f"expected {'a dataclass decorator' if is_dc else 'None'}", where(prog.function(f"{X}._dataclass_decorator")))
+    it.stubs[f"{M}.Class.mro"] = lambda _i, self_: list(self_.attrs["__mro__"])
+    # one extension instance, two trees with the same paths (the old and the new version of a package, as `griffe check` loads them): both are processed
+    ext = it._construct(prog.cls("_griffe.extensions.dataclasses.DataclassesExtension"), [], {})
+    v1 = package("core", [klass("Base", "core", [("x", {})], [])])
+    v2 = package("core", [klass("Base", "core", [("x", {}), ("y", {"value": "0"})], [])])
+    captured.clear()
+    try:
+        it.steps = 0
+        for pk in (v1, v2):
+            it.call(opl, ext, pkg=pk)
+        got5: object = [[p.attrs["name"] for p in it._iterate(c)][1:] for c in captured]
+    except Raised as r:
+        got5 = f"raises {r.exc}"
+    ctx.ob("R2", "sequence|two versions of one package through one extension instance", got5 == [["x"], ["x", "y"]],
+           f"core.Base(x) loaded, then another tree core.Base(x, y = 0) through the same extension instance: synthesised parameter lists {got5}; "
+           "expected [['x'], ['x', 'y']]", where(opl))
     it.stubs.pop(f"{M}.Class.mro", None)
     it.class_stubs.pop(f"{M}.Function", None)
 
